@@ -13,6 +13,7 @@ for the configuration-dependent mechanisms modelled in `Model.lean` on the lower
 import SteelVerif.C02.LemmasHist
 import SteelVerif.C02.LemmasTier
 import SteelVerif.C02.LemmasFold
+import SteelVerif.C02.PropsCore
 namespace SteelVerif.C02
 open SteelVerif.C01
 
